@@ -7,9 +7,12 @@ import (
 	"fmt"
 	"io"
 	"net"
+	"os"
+	"os/signal"
 	"strings"
 	"sync"
 	"sync/atomic"
+	"syscall"
 	"time"
 
 	"github.com/cloudwego/hertz/pkg/app"
@@ -74,6 +77,9 @@ type scen struct {
 	Release   string // before, soon, late
 	Hooks     []string
 	HookConn  bool // standard transport: a connection sits in a slow OnConnect hook when Shutdown is called
+	// Signal: "" = Shutdown is called directly; INT/HUP/TERM = the server runs under Spin()
+	// and shutdown is requested by that signal (what a supervisor sends)
+	Signal string
 }
 
 // readAll reads until EOF/error with a deadline and returns what arrived.
@@ -121,6 +127,9 @@ func readResp(c net.Conn, d time.Duration, methods []string, want int) ([]byte, 
 func oneScenario(w *mon.W, c *mon.Case) {
 	r := c.R
 	s := scen{Netpoll: r.Bool(), ExitWait: []time.Duration{300 * time.Millisecond, 800 * time.Millisecond, 2 * time.Second}[r.Intn(w.Pick(2, 3))], Busy: r.Intn(5), Idle: r.Intn(4), Mid: r.Intn(3), Pipelined: r.Chance(3), Release: r.Str("before", "soon", "soon", "late")}
+	if r.Chance(4) {
+		s.Signal = r.Str("INT", "HUP", "TERM")
+	}
 	for k := r.Intn(4); k > 0; k-- {
 		s.Hooks = append(s.Hooks, r.Str("fast", "slow", "beyond"))
 	}
@@ -194,7 +203,12 @@ func oneScenario(w *mon.W, c *mon.Case) {
 			atomic.AddInt32(&hookDone, 1)
 		})
 	}
-	go func() { runErr <- h.Run() }()
+	spinDone := make(chan struct{})
+	if s.Signal != "" {
+		go func() { h.Spin(); close(spinDone) }()
+	} else {
+		go func() { runErr <- h.Run() }()
+	}
 	up := false
 	for i := 0; i < 400; i++ {
 		cn, err := net.DialTimeout("tcp", addr, 200*time.Millisecond)
@@ -328,7 +342,22 @@ func oneScenario(w *mon.W, c *mon.Case) {
 	t0 := time.Now()
 	atomic.StoreInt32(&shutdownBegan, 1)
 	done := make(chan error, 1)
-	go func() { done <- h.Shutdown(context.Background()) }()
+	if s.Signal != "" {
+		sig := map[string]syscall.Signal{"INT": syscall.SIGINT, "HUP": syscall.SIGHUP, "TERM": syscall.SIGTERM}[s.Signal]
+		go func() {
+			for {
+				syscall.Kill(os.Getpid(), sig) //nolint:errcheck
+				select {
+				case <-spinDone:
+					done <- nil
+					return
+				case <-time.After(300 * time.Millisecond): // (a signal that arrived before Spin listened would be lost)
+				}
+			}
+		}()
+	} else {
+		go func() { done <- h.Shutdown(context.Background()) }()
+	}
 	switch s.Release {
 	case "soon":
 		time.Sleep(30 * time.Millisecond)
@@ -500,11 +529,15 @@ func oneScenario(w *mon.W, c *mon.Case) {
 	for _, cn := range idle {
 		cn.Close()
 	}
-	select {
-	case <-runErr:
-	case <-time.After(3 * time.Second):
-		fail("run-not-returned", "Run did not return within 3 s after Shutdown")
-		return
+	if s.Signal == "" {
+		select {
+		case <-runErr:
+		case <-time.After(3 * time.Second):
+			fail("run-not-returned", "Run did not return within 3 s after Shutdown")
+			return
+		}
+	} else {
+		w.Count("scenarios_shut_down_by_signal_"+s.Signal, 1)
 	}
 	if s.Busy >= 1 && (s.Idle+s.Mid >= 1 || s.Pipelined) {
 		w.Shape(mon.Hash64(fmt.Sprintf("%+v", s)))
@@ -522,6 +555,14 @@ func min(a, b int) int {
 }
 
 func work(w *mon.W) {
+	// the scenarios that shut down by signal send it to this very process: make sure the
+	// default action (terminate) can never apply, whatever hertz has registered at the time
+	guard := make(chan os.Signal, 16)
+	signal.Notify(guard, syscall.SIGINT, syscall.SIGHUP, syscall.SIGTERM)
+	go func() {
+		for range guard {
+		}
+	}()
 	w.Cases("scenario", uint64(w.Pick(48, 1500)), func(c *mon.Case) { oneScenario(w, c) })
 	// shutdown of a server that was never run
 	w.Cases("never-run", uint64(w.Pick(6, 40)), func(c *mon.Case) {
